@@ -15,7 +15,8 @@
    back-reference clearing leave no reference to a removed record. *)
 From Coq Require Import ZArith List Bool.
 Import ListNotations.
-Require Import Grist.Model.MetaCascade Grist.Proofs.MetaCascade_main Grist.Proofs.MetaCascade_norefs.
+Require Import Grist.Model.MetaCascade Grist.Proofs.MetaCascade_main Grist.Proofs.MetaCascade_norefs
+  Grist.Proofs.MetaCascade_fuel Grist.Proofs.MetaCascade_fuel2.
 Open Scope Z_scope.
 
 Fixpoint run_bundles (bs : list (list op)) (m : meta) : res meta :=
@@ -39,7 +40,7 @@ Proof. exact reachable_resolve. Qed.
    AddTable T [A, B]; CreateViewSection(T, new view, group by B): table 2 = T_summary_B with raw section 4 and
    page section 5 *)
 Definition c09_setup : list (list op) :=
-  [[OAddTable 1 [0; 0] true]; [OCreateSummary 1 0 [3] 2 [0] [2; 0]]].
+  [[OAddTable 1 [0; 0] true]; [OCreateSummary 1 0 [3] 2 [0] [2; 0] [0]]].
 Definition c09_before : meta := match run_bundles c09_setup empty_meta with Ok m => m | _ => empty_meta end.
 
 Example c09_setup_runs : res_ok (run_bundles c09_setup empty_meta) = true /\ RefsResolve c09_before = true.
@@ -48,19 +49,19 @@ Proof. vm_compute. split; reflexivity. Qed.
 (* [RemoveColumn T.B, AddColumn T_summary_B.Y]: only the page section 5 is regrouped; the column and its field
    in the raw section 4 go away with T_summary_B at the end of the bundle *)
 Example c09_regression_raw_section :
-  match run_bundle [ORemoveColumnsG [3] [mkRG 5 0 3 1 [] [] [2; 0] [] [(10, 8)] []]; OAddColumn 2 0 0] c09_before with
+  match run_bundle [ORemoveColumnsG [3] [mkRG 5 0 3 1 [] [] [2; 0] [] [] [(10, 8)] []]; OAddColumn 2 0 0] c09_before with
   | Ok m => RefsResolve m && negb (mem 2 (tids m)) && mem 3 (tids m)
   | _ => false
   end = true /\
   (* what the unrepaired doRemoveColumns did, regrouping the raw section 4 as well, is not a run of the model *)
-  res_ok (run_bundle [ORemoveColumnsG [3] [mkRG 4 0 3 1 [] [] [2; 0] [] [(8, 8)] [];
-                                           mkRG 5 3 0 1 [] [] [] [] [(10, 8)] []]; OAddColumn 2 0 0]
+  res_ok (run_bundle [ORemoveColumnsG [3] [mkRG 4 0 3 1 [] [] [2; 0] [] [] [(8, 8)] [];
+                                           mkRG 5 3 0 1 [] [] [] [] [] [(10, 8)] []]; OAddColumn 2 0 0]
                      c09_before) = false.
 Proof. vm_compute. split; reflexivity. Qed.
 
 (* section 5 shows column 6 twice (fields 10 and 11): both fields are moved *)
 Example c09_regression_duplicate_field :
-  match run_bundles [[OAddField 5 6]; [ORegroup (mkRG 5 0 3 1 [] [] [2; 0] [] [(10, 8); (11, 8)] [])]] c09_before with
+  match run_bundles [[OAddField 5 6]; [ORegroup (mkRG 5 0 3 1 [] [] [2; 0] [] [] [(10, 8); (11, 8)] [])]] c09_before with
   | Ok m => RefsResolve m && negb (mem 2 (tids m))
   | _ => false
   end = true.
@@ -69,9 +70,9 @@ Proof. vm_compute. reflexivity. Qed.
 (* UpdateSummaryViewSection(4, []) on the raw section of T_summary_B is refused: the bundle fails; on the page
    section 5 it regroups, and T_summary_B, left with its raw section only, is auto-removed *)
 Example c09_regression_update_raw_section :
-  match run_bundle [ORegroup (mkRG 4 0 3 1 [] [] [2; 0] [] [(8, 8)] [])] c09_before with
+  match run_bundle [ORegroup (mkRG 4 0 3 1 [] [] [2; 0] [] [] [(8, 8)] [])] c09_before with
   | Fail => true | _ => false end = true /\
-  match run_bundle [ORegroup (mkRG 5 0 3 1 [] [] [2; 0] [] [(10, 8)] [])] c09_before with
+  match run_bundle [ORegroup (mkRG 5 0 3 1 [] [] [2; 0] [] [] [(10, 8)] [])] c09_before with
   | Ok m => RefsResolve m && negb (mem 2 (tids m)) && mem 3 (tids m)
   | _ => false
   end = true.
@@ -109,12 +110,24 @@ Theorem C09_auto_removes_resolve : forall fuel m m',
   refs_core m = true -> auto_fix fuel m = Ok m' -> RefsResolve m' = true.
 Proof. exact auto_fix_resolves. Qed.
 
+(* fuel: the loop needs at most (helper columns + summary tables) rounds, every round removes one of them and
+   none is created; with that much fuel or more the result does not depend on the fuel, so the fuel run_bundle
+   gives (all columns + all tables + 1) never cuts the loop short *)
+Theorem C09_auto_fix_fuel : forall n m, (measure m <= n)%nat -> auto_fix n m = auto_fix (measure m) m.
+Proof. exact auto_fix_enough_fuel. Qed.
+
+Theorem C09_fuel_of_enough : forall m, auto_fix (fuel_of m) m = auto_fix (measure m) m.
+Proof.
+  intros m. apply auto_fix_enough_fuel. unfold fuel_of. pose proof (measure_le_fuel m).
+  apply le_S. exact H.
+Qed.
+
 (* non-vacuity: a concrete history (tables, a summary table, views, sections, display and rule helper columns,
    removals that trigger the cascades and the auto-removal of helper columns and of the summary table) *)
 Definition c09_example : list (list op) :=
   [[OAddTable 1 [0; 0; 0] true];
    [OAddTable 2 [0; 0] true; OAddColumn 2 0 1];
-   [OCreateSummary 1 0 [3] 3 [0] [2; 0]];
+   [OCreateSummary 1 0 [3] 3 [0] [2; 0] [0]];
    [OSetDisplay 2 0 8 true 0; OAddRule 1 0 2; OAddRule 1 0 0];
    [OCreateSection 1 0 false 0; OCreateSection 2 1 true 0];
    [OSetDisplay 2 0 8 false 0];          (* the display helper column 12 loses its user: auto-removed *)
